@@ -504,4 +504,7 @@ func main() {
 
 	// T3 (C19): mutation facts (mutfacts.go)
 	emitMutFacts(repo, out)
+
+	// T3 (C11): sources of run-to-run nondeterminism (detfacts.go)
+	emitDetFacts(repo, out)
 }
